@@ -6299,8 +6299,7 @@ static size_t ZSTD_compressStream_generic(ZSTD_CStream* zcs,
 static size_t ZSTD_nextInputSizeHint_MTorST(const ZSTD_CCtx* cctx)
 {
 #ifdef ZSTD_MULTITHREAD
-    if (cctx->appliedParams.nbWorkers >= 1) {
-        assert(cctx->mtctx != NULL);
+    if (cctx->appliedParams.nbWorkers >= 1 && cctx->mtctx != NULL) {   /* appliedParams is the previous frame's until a frame starts : see ZSTD_getFrameProgression() */
         return ZSTDMT_nextInputSizeHint(cctx->mtctx);
     }
 #endif
